@@ -64,6 +64,7 @@ def gen_case(ctx):
             'src': [rng.choice(['arg', 'dict', 'global']) for _ in range(3)],
             'cov': rng.choice([None, None, 1, 2])}
     # overall scale of the data (exact power of two): the estimator is scale covariant, no absolute threshold may enter
+    case['ptype'] = rng.choice(['float', 'float', 'int', 'np.int64', 'np.int32', 'np.float32', 'np.float64'])
     case['scale2'] = rng.choice([0, 0, 0, 0, 0, -70, -58, -30, 45, 100])
     case['via'] = [None, None, None, 'gm', 'corr', 'corrmat', 'cobs', None][(len(reps) + sum(len(r['samples']) for r in reps)) % 8]     # entry point of the analysis (no extra random draw)
     return case
@@ -81,12 +82,23 @@ def build_obs(case):
             idl.append(range(d['range'][0], d['range'][0] + d['range'][1] * d['range'][2], d['range'][2]) if 'range' in d else list(d['list']))
         o = pe.Obs([np.array([float.fromhex(x) for x in r['samples']]) * 2.0 ** case.get('scale2', 0) for r in rl], [r['name'] for r in rl], idl=idl)
         total = o if total is None else total + 0.5 * o
+    # the covariance matrices are handed over as arrays from a work buffer that the caller reuses afterwards:
+    # the observable must have taken a copy (COV_ORIG holds what was handed over)
     if case.get('cov') == 1:
-        total = total + pe.cov_Obs(1.5, 0.25, 'cvA')
+        buf = np.array([[0.25]]) if len(case['reps'][0]['samples']) % 2 else 0.25
+        total = total + pe.cov_Obs(1.5, buf, 'cvA')
+        if isinstance(buf, np.ndarray):
+            buf *= 9.0
     elif case.get('cov') == 2:
-        c = pe.cov_Obs([1.0, 2.0], [[0.5, 0.1], [0.1, 0.3]], 'cvB')
+        buf = np.array([[0.5, 0.1], [0.1, 0.3]])
+        c = pe.cov_Obs([1.0, 2.0], buf, 'cvB')
         total = total + 0.5 * c[0] - 2 * c[1]
+        buf *= 4.0
+        buf[0, 1] = -7.0
     return total
+
+
+COV_ORIG = {'cvA': np.array([[0.25]]), 'cvB': np.array([[0.5, 0.1], [0.1, 0.3]])}
 
 
 def run_impl(case, o):
@@ -102,20 +114,37 @@ def run_impl(case, o):
     glob = {'S': 'S_global', 'tau_exp': 'tau_exp_global', 'N_sigma': 'N_sigma_global'}
     dic = {'S': pe.Obs.S_dict, 'tau_exp': pe.Obs.tau_exp_dict, 'N_sigma': pe.Obs.N_sigma_dict}
     decoy = {'S': 3.7, 'tau_exp': 4.5, 'N_sigma': 2.5}
+    def wrap(v, explicit=False):
+        # the number types a parameter may arrive in: Python float / int, numpy scalars of any width
+        # (an explicit keyword argument is type-checked by the library: int / float and their subclasses only)
+        t = case.get('ptype', 'float')
+        if explicit and t in ('np.int64', 'np.int32', 'np.float32'):
+            t = 'float'
+        if t == 'int' and float(v) == int(v):
+            return int(v)
+        if t == 'np.int64' and float(v) == int(v):
+            return np.int64(int(v))
+        if t == 'np.int32' and float(v) == int(v):
+            return np.int32(int(v))
+        if t == 'np.float32' and float(np.float32(v)) == float(v):
+            return np.float32(v)
+        if t == 'np.float64':
+            return np.float64(v)
+        return v
     for name in ('S', 'tau_exp', 'N_sigma'):
         if src[name] == 'arg':
-            kw[name] = case[name]
+            kw[name] = wrap(case[name], explicit=True)
             if how == 'mixed':
                 for e in ens:
                     dic[name][e] = decoy[name]
                 setattr(pe.Obs, glob[name], decoy[name] * 1.3)
         elif src[name] == 'dict':
             for e in ens:
-                dic[name][e] = case[name]
+                dic[name][e] = wrap(case[name])
             if how == 'mixed':
                 setattr(pe.Obs, glob[name], decoy[name])
         else:
-            setattr(pe.Obs, glob[name], case[name])
+            setattr(pe.Obs, glob[name], wrap(case[name]))
     try:
         # `gm` is the documented short form of `gamma_method`: both entry points are exercised
         # every entry point to the analysis: `Obs.gamma_method`, its short form `gm`, and the containers that forward to it
@@ -214,7 +243,7 @@ def direct_checks(case, o, impl):
     for cn in o.cov_names:
         c = o.covobs[cn]
         j = np.asarray(c.grad, dtype=float).ravel()
-        ref = float(j @ np.atleast_2d(np.asarray(c.cov, dtype=float)) @ j)
+        ref = float(j @ COV_ORIG[cn] @ j)
         if not close(impl['cov'][cn] ** 2, ref, rtol=1e-10):
             probs.append('covariance input %s: %r vs J Sigma J^T %r' % (cn, impl['cov'][cn] ** 2, ref))
     # S = 0: naive standard error of the mean
